@@ -1,4 +1,4 @@
-import XdistProofs.Sys.Inv
+import XdistProofs.Sys.Inv2
 import XdistModel.Driver.Sys
 /-!
   `inv?` for the `sys` driver: evaluates the (decidable) system invariant of `Sys/Inv.lean` on the current state of a
@@ -25,7 +25,12 @@ def invLine (st : St) : String :=
     match toLoad s with
     | none => "inv=-"
     | some ls =>
-      if decide (Xdist.Sys.Inv ls) then "inv=1"
+      if decide (Xdist.Sys.Inv ls) then
+        (if decide (Xdist.Sys.Inv2 ls) then "inv=1"
+         else
+          let badCtl := if decide (Xdist.Sys.CtlInv2 ls.ctl) then "" else " ctl2"
+          let bad := ls.wk.zipIdx.filter (fun p => !decide (Xdist.Sys.WkInv2 ls.ctl p.2 p.1))
+          s!"inv=0{badCtl} workers2={bad.map (·.2)}")
       else
         let badCtl := if decide (Xdist.Sys.CtlInv ls) then "" else " ctl"
         let bad := ls.wk.zipIdx.filter (fun p => !decide (Xdist.Sys.WkInv ls.ctl p.2 p.1))
